@@ -205,6 +205,11 @@ type Interp struct {
 	pinned          map[int64]uint64
 	excluded        map[int64]map[uint64]bool
 	leafCache       map[int64]map[uint64]bool
+	sqlPools        []*sqlPool
+	sqlFaults       bool
+	sqlTexts        map[string]bool
+	jsonSeq         int
+	jsonToks        map[int]*jsonTok
 }
 
 func NewInterp(p *Program, cfg *Config, solver *smt.Solver, prefix []int64) *Interp {
@@ -213,7 +218,7 @@ func NewInterp(p *Program, cfg *Config, solver *smt.Solver, prefix []int64) *Int
 		globals: map[*ssa.Global]*Value{}, inited: map[*ssa.Package]bool{},
 		varSeq: map[string]int{}, facts: map[string]string{}, reached: map[string]bool{},
 		boundsUsed: map[string]int{}, fnsSeen: map[string]bool{}, stubsSeen: map[string]bool{},
-		side: map[any]any{}, chooseSeq: map[string]int{}, choices: map[string]int64{},
+		side: map[any]any{}, chooseSeq: map[string]int{}, choices: map[string]int64{}, sqlTexts: map[string]bool{}, jsonToks: map[int]*jsonTok{},
 	}
 	return it
 }
